@@ -174,7 +174,7 @@ PROPS["C11"] = dict(
     require=["number_literals", "printed_values_compared", "strings_compared", "ordinary_expression_cases_agreed",
              "set:shapes:6"],
     assumptions=TRUST_BASE,
-    stages=dict(quick=[native("dbg", scale=15)], thorough=[native("dbg", scale=20), native("rel", scale=20)]),
+    stages=dict(quick=[native("dbg", scale=40)], thorough=[native("dbg", scale=20), native("rel", scale=20)]),
 )
 
 PROPS["C12"] = dict(
@@ -230,7 +230,7 @@ PROPS["C14"] = dict(
              "law.compound_assignment_plus", "law.build_then_knock_restores", "error_symmetric_pairs",
              "pairs_without_order"],
     assumptions=TRUST_BASE,
-    stages=dict(quick=[native("dbg", scale=10)], thorough=[native("dbg"), native("rel")]),
+    stages=dict(quick=[native("dbg", scale=80)], thorough=[native("dbg"), native("rel")]),
 )
 
 PROPS["C03"] = dict(
@@ -251,7 +251,7 @@ PROPS["C03"] = dict(
              "ok_outcomes_agreed", "error_outcomes_agreed", "programs_with_short_circuit", "programs_with_echo_witness",
              "set:api_kind_cells:240", "set:program_kind_cells:300"],
     assumptions=TRUST_BASE + ["budget: <= 20000 statements, call depth <= 64, values <= 10^5 bytes/elements (larger: discarded before rrss runs)"],
-    stages=dict(quick=[native("dbg", scale=24)],
+    stages=dict(quick=[native("dbg", scale=30)],
                 thorough=[native("dbg", scale=6), native("rel", scale=6),
                           custom("miri_stage", release=False, shards=16, scale=1, name="miri:dev")]),
 )
@@ -271,7 +271,7 @@ PROPS["C04"] = dict(
     require=["programs", "markers_checked", "model.loop_iterations", "model.breaks", "model.continues", "model.else_taken",
              "runs_stopped_by_planted_error_with_output_preserved", "h3_events_checked", "statements_matched"],
     assumptions=TRUST_BASE,
-    stages=dict(quick=[native("dbg", scale=15)], thorough=[native("dbg", scale=10), native("rel", scale=10)]),
+    stages=dict(quick=[native("dbg", scale=14)], thorough=[native("dbg", scale=10), native("rel", scale=10)]),
 )
 
 PROPS["C05"] = dict(
@@ -312,7 +312,7 @@ PROPS["C06"] = dict(
              "op.roll_into", "op.copy_by_assignment", "op.copy_by_storing_into_array", "op.argument_passing",
              "op.array_in_expression", "op.error_array_as_key_read", "op.error_array_as_key_write"],
     assumptions=TRUST_BASE,
-    stages=dict(quick=[native("dbg", scale=18)],
+    stages=dict(quick=[native("dbg", scale=40)],
                 thorough=[native("dbg", scale=3), native("rel", scale=3),
                           custom("miri_stage", release=False, shards=16, scale=1, name="miri:dev")]),
 )
@@ -332,7 +332,7 @@ PROPS["C07"] = dict(
              "cases.cut.IntoVariable", "cases.cut.InPlaceVariable", "cases.join.IntoSubscript", "cases.cast_string.InPlacePronoun",
              "cases.cast_number.FromSubscriptInto", "cases.turn.InPlaceVariable", "cases.turn.FromSubscriptInto"],
     assumptions=TRUST_BASE,
-    stages=dict(quick=[native("dbg", scale=12), native("rel", scale=12)], thorough=[native("dbg", scale=15), native("rel", scale=15)]),
+    stages=dict(quick=[native("dbg", scale=30), native("rel", scale=30)], thorough=[native("dbg", scale=15), native("rel", scale=15)]),
 )
 
 PROPS["C08"] = dict(
@@ -355,7 +355,7 @@ PROPS["C08"] = dict(
              "cli_fault.stdout_device_full", "cli_fault.stdout_closed_pipe", "cli_fault.stdin_is_a_directory",
              "cli_fault.stdin_invalid_utf8", "cli_fault_runs_held"],
     assumptions=TRUST_BASE,
-    stages=dict(quick=[native("dbg", scale=18), custom("c08_cli_faults", builds=["cli", "dbg"], n=48)],
+    stages=dict(quick=[native("dbg", scale=72), custom("c08_cli_faults", builds=["cli", "dbg"], n=48)],
                 thorough=[native("dbg", scale=30), native("rel", scale=30), custom("c08_cli_faults", builds=["cli", "dbg"], n=600)]),
 )
 
@@ -700,7 +700,7 @@ PROPS["C17"] = dict(
     require=["constant_expressions", "non_constant_expressions", "folded_values_compared_with_execution", "non_constants_rejected",
              "non_finite_results", "poetic_literals", "string_folder_cases", "set:leaf_forms:8", "set:string_forms:12"],
     assumptions=TRUST_BASE,
-    stages=dict(quick=[native("dbg", scale=15)], thorough=[native("dbg", scale=20), native("rel", scale=20)]),
+    stages=dict(quick=[native("dbg", scale=50)], thorough=[native("dbg", scale=20), native("rel", scale=20)]),
 )
 
 PROPS["C18"] = dict(
@@ -719,7 +719,7 @@ PROPS["C18"] = dict(
     require=["programs", "candidate_statements", "diagnostics_matched", "diagnostic_lines_checked", "suggestions_spelling_checked",
              "suggestions_round_tripped", "values_without_poetic_spelling_handled", "set:value_classes:11"],
     assumptions=TRUST_BASE,
-    stages=dict(quick=[native("dbg", scale=12), native("rel", scale=12)], thorough=[native("dbg", scale=20), native("rel", scale=20)]),
+    stages=dict(quick=[native("dbg", scale=20), native("rel", scale=20)], thorough=[native("dbg", scale=20), native("rel", scale=20)]),
 )
 
 PROPS["C19"] = dict(
